@@ -81,7 +81,7 @@ TNext ==
                           \/ ev.h \notin {"register", "unregister", "closed", "will", "exit.write"} /\ UNCHANGED bvars
   \/ Is("srvdisconnect") /\ SrvDisconnect(ev.k, ev.code)
   \/ Is("quiet")       /\ Quiet(ev.ms)
-  \/ Is("view")        /\ ViewOK(ev.subs, ev.online, ev.sessions) /\ UNCHANGED bvars
+  \/ Is("view")        /\ ViewOK(ev.subs, ev.online, ev.sessions) /\ RetainedViewOK(ev.retained) /\ UNCHANGED bvars
   \/ Is("dropped")     /\ Dropped(ev.cid, ev.tag, ev.reason, ev.ms)
   \/ Is("note")        /\ UNCHANGED bvars
   \/ Is("raw")         /\ UNCHANGED bvars
